@@ -371,3 +371,64 @@ Fixpoint use_ok (p : cell) (es : list cell) {struct p} : bool :=
 Definition S_match (p u : cell) : bool :=
   pat_ok false p && (is_list u || negb (is_pair u)) && use_ok p (elems u).
 End Fragment.
+
+(* S_tmpl: templates built from identifiers, non-vector data and proper lists nested to
+   any depth, in which an ellipsis directly follows an identifier that the pattern binds
+   under an ellipsis ([isexp]), and such identifiers occur nowhere else.  [chain]: the
+   cell is the rest of a list (then only a pair or () may follow). *)
+Section TemplateFragment.
+Variable isexp : cell -> bool.
+Variable ellipsis : cell.
+
+Fixpoint tmpl_ok (chain : bool) (t : cell) {struct t} : bool :=
+  match t with
+  | CNil => true
+  | CPair t1 rest =>
+      negb (s_is_ell ellipsis t1) &&
+      match rest with
+      | CPair e rest' =>
+          if s_is_ell ellipsis e
+          then is_symbol t1 && isexp t1 && negb (starts_with_ell ellipsis rest') && tmpl_ok true rest'
+          else tmpl_ok false t1 && tmpl_ok true rest
+      | _ => tmpl_ok false t1 && tmpl_ok true rest
+      end
+  | CSym _ => negb chain && negb (isexp t) && negb (s_is_ell ellipsis t)
+  | CVec _ => false
+  | _ => negb chain
+  end.
+End TemplateFragment.
+
+(* the supported fragment for a whole (definition, use): every rule of the transformer
+   built by try_new is in S_pat/S_tmpl and the use is in S_use for every rule *)
+Definition rule_supported (lits : list cell) (ell : cell) (u : cell) (r : pattern * cell) : bool :=
+  match p_expr (fst r), u with
+  | CPair _ pd, CPair _ ud =>
+      S_match lits ell pd ud && tmpl_ok (is_expanded_variable (fst r)) ell false (snd r)
+      && no_dup (pvars lits ell pd)
+  | _, _ => false
+  end.
+
+Definition supported_tr (tr : transform) (u : cell) : bool :=
+  is_symbol (tr_ellipsis tr) && forallb (rule_supported (tr_literals tr) (tr_ellipsis tr) u) (tr_rules tr).
+
+Definition supported (d u : cell) : bool :=
+  match transform_try_new d with
+  | Ok tr => supported_tr tr u
+  | _ => true              (* a rejected definition is a reported error *)
+  end.
+
+(* the rule the specification selects: the first whose pattern matches *)
+Fixpoint spec_select (lits : list cell) (ell : cell) (rules : list (pattern * cell)) (u : cell)
+  : option (pattern * cell * senv) :=
+  match rules with
+  | [] => None
+  | r :: rest =>
+      match p_expr (fst r), u with
+      | CPair _ pd, CPair _ ud =>
+          match smatch lits ell pd ud with
+          | Some se => Some (fst r, snd r, se)
+          | None => spec_select lits ell rest u
+          end
+      | _, _ => None
+      end
+  end.
